@@ -219,6 +219,24 @@ def dispatch(eng, st, body, callee, args):
         if lo is not None:
             v = args[0]
             return _o(st, Enum("Result", 0, [v]) if lo <= v <= hi else Enum("Result", 1, [Opaque("TryFromIntError")]))
+    if Tr in ("TryInto", "TryFrom") and meth in ("try_into", "try_from") and len(args) == 1 and is_z3(args[0]) and is_int(args[0]):
+        from engine import INT_RANGES, Outcome
+        mt = re.search(r"Try(?:Into|From)<(\w+)>", callee)
+        src, tgt = (T, mt.group(1)) if meth == "try_into" else (mt.group(1), T)
+        if src in INT_RANGES and tgt in INT_RANGES:
+            (slo, shi), (tlo, thi) = INT_RANGES[src], INT_RANGES[tgt]
+            v = args[0]
+            if tlo <= slo and shi <= thi:
+                return _o(st, Enum("Result", 0, [v]))
+            outs = []
+            fits = z3.And(v >= tlo, v <= thi)
+            if eng.feasible(st, fits):
+                s2 = st.fork(); s2.assume(fits)
+                outs.append(Outcome(s2, "ret", Enum("Result", 0, [v])))
+            if eng.feasible(st, z3.Not(fits)):
+                s3 = st.fork(); s3.assume(z3.Not(fits))
+                outs.append(Outcome(s3, "ret", Enum("Result", 1, [Opaque("TryFromIntError")])))
+            return outs
     if T in ("PInt", "NInt") and meth == "new":
         # typenum exponent marker: keep the type-level integer (binary: UInt<UInt<UTerm, B1>, B0> = 2)
         bits = re.findall(r"B([01])", callee)
@@ -269,6 +287,23 @@ def dispatch(eng, st, body, callee, args):
         a, b = num2(eng, st, args)
         if is_scalar(a) and is_scalar(b):
             return _o(st, eng.binop(st, CMP[meth], a, b))
+    if Tr in ("PartialOrd", "Ord") and meth in ("partial_cmp", "cmp") and len(args) == 2:
+        a, b = num2(eng, st, args)
+        if is_scalar(a) and is_scalar(b):
+            wrap = (lambda o: Enum("Option", 1, [o])) if meth == "partial_cmp" else (lambda o: o)
+            if is_conc(a) and is_conc(b):
+                if eng.mode == "float" and (a != a or b != b):
+                    return _o(st, Enum("Option", 0, ()))
+                return _o(st, wrap(Enum("Ordering", 0 if a < b else (1 if a == b else 2), ())))
+            from engine import Outcome
+            a, b = to_z3(a), to_z3(b)
+            outs = []
+            for k, cnd in ((0, a < b), (1, a == b), (2, a > b)):
+                if eng.feasible(st, cnd):
+                    s2 = st.fork()
+                    s2.assume(cnd)
+                    outs.append(Outcome(s2, "ret", wrap(Enum("Ordering", k, ()))))
+            return outs
     if Tr == "PartialEq" and meth in ("eq", "ne") and len(args) == 2:
         a, b = num2(eng, st, args)
         if isinstance(a, Enum) and isinstance(b, Enum) and not a.fields and not b.fields:
@@ -388,6 +423,12 @@ def dispatch(eng, st, body, callee, args):
             r = value_eq(eng, st, a.fields[0], b.fields[0])
         return _o(st, r if meth == "eq" else eng.unop(st, "Not", r))
 
+    # ---- HashMap (association list of concrete keys; enough for emptiness, length, lookup by unit-enum / integer key)
+    if T == "HashMap" or (T or "") == "impl:HashMap":
+        r = hashmap_ops(eng, st, meth, args)
+        if r is not None:
+            return r
+
     # ---- Vec / slices / arrays
     r = seq_ops(eng, st, T, Tr, meth, args, gen, rawT)
     if r is not None:
@@ -416,7 +457,8 @@ def dispatch(eng, st, body, callee, args):
             return _o(st, a)
     if T == "mem" and meth in ("drop", "forget"):
         return _o(st, UNIT)
-    if Tr == "Deref" and meth == "deref" or Tr == "DerefMut" and meth == "deref_mut" or Tr in ("AsRef", "Borrow", "AsMut", "BorrowMut") and meth in ("as_ref", "borrow", "as_mut", "borrow_mut"):
+    if (Tr == "Deref" and meth == "deref" or Tr == "DerefMut" and meth == "deref_mut" or Tr in ("AsRef", "Borrow", "AsMut", "BorrowMut") and meth in ("as_ref", "borrow", "as_mut", "borrow_mut")) \
+            and (T in ("Vec", "String", "Box", "Rc", "Arc", "P", "Q", "T") or (T or "").startswith("[") or eng.mir.resolve(callee) is None):
         p0 = args[0]
         # `&&Vec<T>` / `&&[T]` -> `&[T]`: follow references until the pointee is the container itself
         while isinstance(p0, Ptr):
@@ -438,6 +480,21 @@ def dispatch(eng, st, body, callee, args):
             return _o(st, v)
     if T == "Box" and meth == "new":
         return _o(st, eng.heap_alloc(st, args[0]))
+    if T == "Box" and meth == "new_uninit":
+        # lowering of vec![..]: Box<MaybeUninit<[T; N]>> whose payload is written through (*ptr).1.0.0
+        cell = eng.heap_alloc(st, UNINIT)
+        return _o(st, Struct("Box", [Struct("Unique", [cell])]))
+    if meth == "box_assume_init_into_vec_unsafe":
+        bx = args[0]
+        cell = bx.fields[0].fields[0]
+        v = eng.load_ptr(st, cell)
+        try:
+            arr = v.fields[1].fields[0].fields[0]
+        except Exception:
+            raise Unsupported("vec![] payload layout")
+        if not isinstance(arr, Seq):
+            raise Unsupported("vec![] payload is not an array")
+        return _o(st, arr)
     if T in ("String", "impl:str", "str") and meth in ("new", "from", "as_str", "clone", "len", "is_empty", "push_str"):
         return _o(st, Opaque("String"))
     if Tr == "Default" and meth == "default" and T == "String":
@@ -709,6 +766,68 @@ def option_result(eng, st, T, meth, args, callee=""):
     return None
 
 
+# ---------------------------------------------------------------- hash maps
+
+
+def _map_of(eng, st, p):
+    q = p
+    v = eng.load_ptr(st, q) if isinstance(q, Ptr) else q
+    while isinstance(v, Ptr):
+        q = v
+        v = eng.load_ptr(st, q)
+    if isinstance(v, Opaque) and v.tag.startswith("HashMap"):
+        v = Struct("HashMap", [Seq(())])
+    if not (isinstance(v, Struct) and v.ty == "HashMap"):
+        raise Unsupported(f"expected HashMap, got {v!r}")
+    return v, q
+
+
+def _key_eq(a, b):
+    if isinstance(a, Enum) and isinstance(b, Enum) and not a.fields and not b.fields:
+        return a.variant == b.variant
+    if isinstance(a, (int, str)) and isinstance(b, (int, str)):
+        return a == b
+    if isinstance(a, Struct) and isinstance(b, Struct) and len(a.fields) == 1 and isinstance(a.fields[0], int) and isinstance(b.fields[0], int):
+        return a.fields[0] == b.fields[0]
+    raise Unsupported("HashMap key comparison on non-concrete keys")
+
+
+def hashmap_ops(eng, st, meth, args):
+    if meth in ("new", "default", "with_capacity"):
+        return _o(st, Struct("HashMap", [Seq(())]))
+    m, q = _map_of(eng, st, args[0])
+    items = m.fields[0].elems
+    if meth == "is_empty":
+        return _o(st, len(items) == 0)
+    if meth == "len":
+        return _o(st, len(items))
+    if meth in ("get", "contains_key", "get_mut"):
+        k = eng.deref_all(st, args[1])
+        for i, it in enumerate(items):
+            if _key_eq(it.fields[0], k):
+                if meth == "contains_key":
+                    return _o(st, True)
+                return _o(st, Enum("Option", 1, [Ptr(q.root, q.path + (0, i, 1))]))
+        return _o(st, False if meth == "contains_key" else Enum("Option", 0, ()))
+    if meth in ("values", "keys", "iter"):
+        n = len(items)
+        if meth == "iter":
+            return _o(st, IterV("owned", Seq([Struct("()", [Ptr(q.root, q.path + (0, i, 0)), Ptr(q.root, q.path + (0, i, 1))]) for i in range(n)]), 0, n))
+        col = 1 if meth == "values" else 0
+        return _o(st, IterV("owned", Seq([Ptr(q.root, q.path + (0, i, col)) for i in range(n)]), 0, n))
+    if meth == "insert":
+        k, v = args[1], args[2]
+        for i, it in enumerate(items):
+            if _key_eq(it.fields[0], k):
+                new = list(items)
+                new[i] = Struct("()", [k, v])
+                eng.store_ptr(st, q, Struct("HashMap", [Seq(new)]))
+                return _o(st, Enum("Option", 1, [it.fields[1]]))
+        eng.store_ptr(st, q, Struct("HashMap", [Seq(items + (Struct("()", [k, v]),))]))
+        return _o(st, Enum("Option", 0, ()))
+    return None
+
+
 # ---------------------------------------------------------------- sequences
 
 
@@ -772,13 +891,13 @@ def seq_ops(eng, st, T, Tr, meth, args, gen, rawT):
         return _o(st, UNIT)
     if meth == "push":
         v, q = _seq_of(eng, st, args[0])
-        eng.store_ptr(st, q, Seq(v.elems + (args[1],)))
+        eng.store_ptr(st, q, Seq(v.elems + (args[1],), v.ety))
         return _o(st, UNIT)
     if meth == "pop":
         v, q = _seq_of(eng, st, args[0])
         if not v.elems:
             return _o(st, Enum("Option", 0, ()))
-        eng.store_ptr(st, q, Seq(v.elems[:-1]))
+        eng.store_ptr(st, q, Seq(v.elems[:-1], v.ety))
         return _o(st, Enum("Option", 1, [v.elems[-1]]))
     if meth == "clear":
         v, q = _seq_of(eng, st, args[0])
@@ -798,7 +917,7 @@ def seq_ops(eng, st, T, Tr, meth, args, gen, rawT):
             raise Unsupported("Vec::insert at symbolic index")
         if i > len(v.elems):
             return _panic(st, "Vec::insert index out of bounds")
-        eng.store_ptr(st, q, Seq(v.elems[:i] + (args[2],) + v.elems[i:]))
+        eng.store_ptr(st, q, Seq(v.elems[:i] + (args[2],) + v.elems[i:], v.ety))
         return _o(st, UNIT)
     if meth == "remove":
         v, q = _seq_of(eng, st, args[0])
@@ -807,7 +926,7 @@ def seq_ops(eng, st, T, Tr, meth, args, gen, rawT):
             raise Unsupported("Vec::remove at symbolic index")
         if i >= len(v.elems):
             return _panic(st, "Vec::remove index out of bounds")
-        eng.store_ptr(st, q, Seq(v.elems[:i] + v.elems[i + 1 :]))
+        eng.store_ptr(st, q, Seq(v.elems[:i] + v.elems[i + 1 :], v.ety))
         return _o(st, v.elems[i])
     if meth == "swap":
         v, q = _seq_of(eng, st, args[0])
